@@ -34,11 +34,11 @@ def run(ctx, col, tier):
     col.not_decided += ["distance preservation and inverse round trip as numeric statements",
                         "angle values", "unit-length requirement on the Rodrigues axis"]
 
-    shapes(ctx, col)
-    conj(ctx, col)
-    layout(ctx, col)
-    apply_rule(ctx, col)
-    wiring(ctx, col)
+    col.guard(shapes, ctx, col)
+    col.guard(conj, ctx, col)
+    col.guard(layout, ctx, col)
+    col.guard(apply_rule, ctx, col)
+    col.guard(wiring, ctx, col)
     for cq, q in ((f"{GEO}.AffineTransform", f"{GEO}.AffineTransform.__call__"),
                   (f"{GEO}.TranslateOrigin", f"{GEO}.TranslateOrigin.__call__"),
                   (f"{GEO}.Scale", f"{GEO}.AffineTransform.__call__")):
@@ -166,7 +166,15 @@ def conj(ctx, col):
     if root_arm is None:
         return
     src = {norm_src(s.targets[0]): s for s in root_arm.body if isinstance(s, ast.Assign)}
-    tm = src.get("tm")
+    tm = src.get("tm") or src.get("self.tm")
+    # applying a transform must not change the transform object (it is applied to many trees)
+    stores = [n for n in own_nodes(d) if isinstance(n, (ast.Assign, ast.AugAssign, ast.AnnAssign))
+              for t in (n.targets if isinstance(n, ast.Assign) else [n.target])
+              if isinstance(t, (ast.Attribute, ast.Subscript)) and (dotted(t) or norm_src(t)).startswith("self.")]
+    col.check(not stores, "R-CONJ", d.qualname, d.loc(stores[0]) if stores else d.loc(),
+              "applying the transform leaves the transform object unchanged (the stored matrix is only read)", "",
+              (f"`{norm_src(stores[0])[:80]}` overwrites the transform's own state in __call__: the next tree is transformed with a "
+               f"matrix already conjugated about the previous tree's root") if stores else "", stmt="self-store")
     xyz_a = src.get("xyz")
     idx_a = src.get("idx")
     ok = idx_a is not None and norm_src(idx_a.value) == "np.nonzero(x.ndata[x.names.pid] == -1)[0][0].item()" \
